@@ -121,8 +121,9 @@ class Clauses:
 
 
 class RaiseCase:
-    def __init__(self, cls, when, ensures, iff, label, unchanged):
+    def __init__(self, cls, when, ensures, iff, label, unchanged, where=None):
         self.cls, self.when, self.ensures, self.iff, self.label, self.unchanged = cls, when, ensures, iff, label, unchanged
+        self.where = where          # None: any; 'call': raised at a call (no callee frame); 'inside': anything else
 
 
 class Ctx:
@@ -157,13 +158,14 @@ class Ctx:
     # clauses
     def requires(self, label, f): self.out.requires.append((label, f))
     def ensures(self, label, f): self.out.ensures.append((label, f))
-    def raises(self, cls, when=None, ensures=None, iff=False, label=None, unchanged=True):
-        self.out.raises.append(RaiseCase(cls, when, ensures, iff, label or cls, unchanged))
+    def raises(self, cls, when=None, ensures=None, iff=False, label=None, unchanged=True, where=None):
+        self.out.raises.append(RaiseCase(cls, when, ensures, iff, label or cls, unchanged, where))
     def emit(self, record): self.out.emits.append(record)
-    def expect_trace(self, fn, length):
+    def expect_trace(self, fn, length, normal_len='same', predicate=False):
         """the activation's own trace of traced calls: fn(k) is the k-th record (a function of the pre-state), `length`
-        the number of records on a normal return"""
-        self.out.trace_spec = (fn, length)
+        an upper bound for every exit, `normal_len` the exact number of records on a normal return (None: not fixed).
+        With predicate=True, fn(k, record, state) is a condition on the k-th record instead."""
+        self.out.trace_spec = (fn, length, length if normal_len == 'same' else normal_len, predicate)
     def returns(self, pv):
         """fix the result to a specific value"""
         self.out.result_pv = pv
@@ -171,7 +173,8 @@ class Ctx:
 
 class Contract:
     def __init__(self, key, body, qual=None, params=None, result=VAL, modifies=(), self_cls=None, traced=None,
-                 sig=None, pure=False, may_raise_other=False, closure=None, trusted=None, emits_trace=False, kinds=None):
+                 sig=None, pure=False, may_raise_other=False, closure=None, trusted=None, emits_trace=False, kinds=None,
+                 propagates_delivery_errors=False):
         self.key, self.body, self.qual = key, body, qual
         self.kinds = dict(kinds or params or {})
         self.result, self.modifies, self.self_cls = result, tuple(modifies), self_cls
@@ -179,7 +182,8 @@ class Contract:
         self.pure = pure
         self.trusted = trusted          # reason string if this contract is assumed (no verified body)
         self.closure = closure or {}    # name -> Kind of free variables (nested functions)
-        self.emits_trace = emits_trace  # body may append to the trace (for verification the trace is compared in ensures)
+        self.emits_trace = emits_trace
+        self.propagates_delivery_errors = propagates_delivery_errors   # a failed delivery must leave the function as an exception  # body may append to the trace (for verification the trace is compared in ensures)
         self._sig = sig
         self.node = self.file = self.hash = self.module = None
         self.verified = False
